@@ -3,7 +3,7 @@ import ast
 
 from ..core import AnalysisError, u, walk_local, enclosing_stmt
 from ..lib import (construct, std_facts, def_of, copy_kind, at_least, facts_at,
-                   calls_of_node, stored_names, in_subtree, returns_of)
+                   calls_of_node, stored_names, in_subtree, returns_of, card_cases)
 from ..resolve import store_accesses
 from .common import hasheq, dunder_sweep, instance_state, finalize_conflict_guard, method_selector_rule
 
@@ -292,15 +292,20 @@ def run(ctx):
             'exact-match precedence is gone: a name that equals a stored name and is also a suffix of others is reported ambiguous', mt.loc(), instance='exact')
   gm = sm.methods.get('get_match')
   g, facts = std_facts(prog, gm)
-  rets = [n for n in g.live_nodes() if n.kind == 'return' and n.ast.value is not None and 'self._selector_map[' in u(n.ast.value)]
-  ok = bool(rets)
-  for n in rets:
-    fs = facts[n.id]
-    one = any(fct[0] == 'c' and fct[2] is False and fct[1].replace(' ', '') in ('len(matching_selectors)>1',) for fct in fs)
-    some = ('c', 'matching_selectors', True) in fs
-    ok = ok and one and some
-  amb = [n for n in g.live_nodes() if n.kind == 'raise_stmt' and any(fct[0] == 'c' and fct[2] is True and 'len(matching_selectors) > 1' == fct[1] for fct in facts[n.id])]
-  dflt = [n for n in g.live_nodes() if n.kind == 'return' and ('c', 'matching_selectors', False) in facts[n.id] and u(n.ast.value) == gm.params[2]]
+  # the list of matches, and the exits classified by how many matches are consistent with their guards
+  M = None
+  for n in g.live_nodes():
+    if n.kind == 'stmt' and isinstance(n.ast, ast.Assign) and isinstance(n.ast.value, ast.Call) \
+        and prog.resolve_call(gm, n.ast.value) == sm.qual + '.matching_selectors' and isinstance(n.ast.targets[0], ast.Name):
+      M = n.ast.targets[0].id
+  if M is None:
+    raise AnalysisError('get_match no longer takes its candidates from matching_selectors')
+  rets = [n for n in g.live_nodes() if n.kind == 'return' and n.ast.value is not None and u(n.ast.value).replace(' ', '') == 'self._selector_map[%s[0]]' % M]
+  ok = bool(rets) and all(card_cases(facts[n.id], M) == {1} for n in rets)
+  amb = [n for n in g.live_nodes() if n.kind == 'raise_stmt' and card_cases(facts[n.id], M) == {2, 3}]
+  dflt = [n for n in g.live_nodes() if n.kind == 'return' and u(n.ast.value) == gm.params[2] and card_cases(facts[n.id], M) == {0}]
+  other = [n for n in g.live_nodes() if n.kind in ('return', 'raise_stmt') and n not in rets and n not in amb and n not in dflt]
+  ok = ok and not other
   ctx.check(ok and amb and dflt, 'C08.exact-first', smc + '.get_match',
             'one match returns its value, several raise (ambiguous), none returns the default',
             'get_match no longer implements one / several=raise / none=default', gm.loc(), instance='get_match')
